@@ -454,6 +454,24 @@ Session make(const std::string& kind, long idx)
         for (const orc::Move& m : allowed) lm.push_back(vh::jstr(m.uci()));
         for (int rep = 0; rep < 3; ++rep)
             s.steps.push_back("[\"go\"," + vh::jstr("go depth 2") + ",-1," + vh::jstr(root.fen()) + "," + jarr(lm) + ",2,[],0]");
+        if (idx % 3 == 0)
+        {
+            // switch to a book WITHOUT complete records (empty / shorter than one record / cleared): the old records must be gone,
+            // i.e. the engine has to search (marked for the driver by the pseudo searchmove "__search__")
+            int mode = int(idx / 3 % 3);
+            s.tag += mode == 0 ? ":then-empty-file" : mode == 1 ? ":then-truncated-file" : ":then-cleared";
+            if (mode == 2)
+                s.send("setoption name Polyglot Book value");
+            else
+            {
+                s.steps.push_back("[\"bookfile\"," + vh::jstr(mode == 0 ? "" : "00112233445566778899aabbccddee") + "]");
+                s.send("setoption name Polyglot Book value @BOOK@");
+            }
+            s.sync();
+            std::vector<std::string> any;
+            for (const orc::Move& m : root.legal()) any.push_back(vh::jstr(m.uci()));
+            s.steps.push_back("[\"go\"," + vh::jstr("go depth 2") + ",-1," + vh::jstr(root.fen()) + "," + jarr(any) + ",2,[\"__search__\"],0]");
+        }
     }
     s.send("quit");
     return s;
